@@ -667,6 +667,50 @@ def _name_uses(fn_node, name: str):
     return [n for n in walk(fn_node) if isinstance(n, ast.Name) and n.id == name and isinstance(n.ctx, ast.Load)]
 
 
+def r2_casts(ctx):
+    """(v) a numpy cast of the value to the spec's own dtype is an unchecked C cast (wraps / truncates): on a write
+    path it is followed by a rejecting comparison with the source, or asks numpy for a safe cast."""
+    repo = ctx.repo
+    n = 0
+    for ci in _spec_classes(repo):
+        for name in ("encode", "serialize"):
+            m = ci.methods.get(name)
+            if m is None or is_abstract(m):
+                continue
+            vp = (_params(m) or [None])[0]
+            casts = []
+            for c in [x for x in walk(m.node) if isinstance(x, ast.Call)]:
+                tgt = None
+                if isinstance(c.func, ast.Attribute) and c.func.attr == "astype" and c.args:
+                    tgt = c.args[0]
+                    safe = isinstance(kw(c, "casting"), ast.Constant) and kw(c, "casting").value in ("safe", "no", "equiv")
+                elif (ap(c.func) or "").split(".")[-1] in ("array", "asarray") and kw(c, "dtype") is not None:
+                    tgt = kw(c, "dtype")
+                    safe = False
+                if tgt is not None and (ap(tgt) or "").startswith(("self.", "cls.")) and not safe:
+                    casts.append(c)
+            if not casts:
+                continue
+            # the data being cast comes straight from the value parameter
+            direct = [c for c in casts if vp in {x.id for x in ast.walk(c) if isinstance(x, ast.Name)}
+                      or any(isinstance(c.func, ast.Attribute) and isinstance(c.func.value, ast.Name) and
+                             any(st.path == c.func.value.id and st.value is not None and
+                                 vp in {x.id for x in ast.walk(st.value) if isinstance(x, ast.Name)}
+                                 and not any(isinstance(y, ast.BinOp) for y in ast.walk(st.value))
+                                 for st in stores(m.node, into_defs=False)) for _ in (0,))]
+            # a value already computed by this method (quantised codes) is that method's business
+            direct = [c for c in direct if not any(st.kind == "augassign" and st.path == vp for st in stores(m.node, into_defs=False))]
+            if not direct:
+                continue
+            n += 1
+            checked = any(isinstance(x, ast.Call) and (ap(x.func) or "").split(".")[-1] in ("array_equal", "can_cast", "allclose")
+                          for x in walk(m.node)) and any(isinstance(x, ast.Raise) for x in walk(m.node))
+            ctx.ob("C08.R2", f"{_label(ci)}.{name}: cast of the value to the spec's dtype is checked against the source (raise)",
+                   checked, ctx.w(m, direct[0]), f"{norm(direct[0])} wraps / truncates elements that do not fit "
+                                                 f"(70000 -> 4464 in a 16-bit index list) instead of rejecting them")
+    ctx.stats["C08.R2.numpy casts of values"] = n
+
+
 def r3(ctx):
     repo = ctx.repo
     ctx.rule("C08.R3", "size queries: arithmetic on a calc_size() result is None-guarded (or the receiver is "
@@ -1440,8 +1484,19 @@ STRIPS = {"rstrip": ("right",), "lstrip": ("left",), "strip": ("left", "right")}
 LOSSY_SAME = {"replace", "lower", "upper", "casefold", "title", "capitalize", "swapcase", "expandtabs", "translate"}
 
 
+_CONST_RESOLVER = {"fn": None}     # (name node) -> constant node of a module-level NAME = literal, set per run
+
+
+def _lit(node):
+    """The literal a node stands for: a constant, or a module-level name bound to one (`_NUL = b"\\x00"`)."""
+    if isinstance(node, ast.Name) and _CONST_RESOLVER["fn"] is not None:
+        node = _CONST_RESOLVER["fn"](node) or node
+    return node
+
+
 def _const_of_pad(node):
     """K for  K  /  K * n  /  n * K  (a literal byte/str pad)."""
+    node = _lit(node)
     if isinstance(node, ast.Constant) and isinstance(node.value, (bytes, str)):
         return node.value
     if isinstance(node, ast.BinOp) and isinstance(node.op, ast.Mult):
@@ -1501,6 +1556,16 @@ def _writer_scope(repo, s: FuncInfo) -> List[FuncInfo]:
 
 def r15(ctx):
     repo = ctx.repo
+
+    def resolve(name_node):
+        for mod in (repo.modules.get(rel) for rel in PAIR_MODULES):
+            if mod is None:
+                continue
+            v = repo.module_assign(mod, name_node.id)
+            if isinstance(v, ast.Constant):
+                return v
+        return None
+    _CONST_RESOLVER["fn"] = resolve
     ctx.rule("C08.R15", "no one-sided normalisation on the read side: a strip / replace / case-fold applied to what was "
                         "read from the stream undoes something the write side adds (padding or a terminator of the "
                         "same bytes on the same end, or the same fold) - otherwise values ending in those bytes do not "
@@ -1523,7 +1588,8 @@ def r15(ctx):
                 if "<stream:" not in recv:
                     continue
                 if m in STRIPS:
-                    k = n.args[0].value if n.args and isinstance(n.args[0], ast.Constant) else None if not n.args else "?"
+                    a0 = _lit(n.args[0]) if n.args else None
+                    k = a0.value if isinstance(a0, ast.Constant) else None if not n.args else "?"
                     found[f"{m}({k!r})"] = (m, k, f"{fr.mod.rel}:{n.lineno}")
                 elif m in LOSSY_SAME:
                     found[f"{m}()"] = (m, None, f"{fr.mod.rel}:{n.lineno}")
@@ -1778,10 +1844,141 @@ def r20(ctx):
     ctx.floor("C08.R20", "half-step nudges feeding round()", n, 1)
 
 
+# ----------------------------------------------------------------------------- R21 / R22 / R23 (second audit round)
+
+def _truth_tested(test, path: str) -> bool:
+    """`path` is used for its truth value in this test (not inside a comparison / call)."""
+    if isinstance(test, ast.BoolOp):
+        return any(_truth_tested(v, path) for v in test.values)
+    if isinstance(test, ast.UnaryOp) and isinstance(test.op, ast.Not):
+        return _truth_tested(test.operand, path)
+    return ap(test) == path
+
+
+def r21(ctx):
+    repo = ctx.repo
+    ctx.rule("C08.R21", "an optional count is tested with `is None`, not for truth: an attribute that the constructor "
+                        "fills from an int argument (and leaves None otherwise) legitimately holds 0, so choosing the "
+                        "wire mode by its truth value turns a fixed count of zero into another mode")
+    n = 0
+    for ci in _spec_classes(repo):
+        init = ci.methods.get("__init__")
+        if init is None:
+            continue
+        int_attrs: Set[str] = set()
+        for node in walk(init.node):
+            if not isinstance(node, ast.If):
+                continue
+            for e in [x for x in ast.walk(node.test) if isinstance(x, ast.Call)]:
+                if isinstance(e.func, ast.Name) and e.func.id == "isinstance" and len(e.args) == 2 and \
+                        "int" in {(ap(c) or "") for c in (e.args[1].elts if isinstance(e.args[1], ast.Tuple) else [e.args[1]])} \
+                        and isinstance(e.args[0], ast.Name):
+                    for st in stores(ast.Module(body=node.body, type_ignores=[]), into_defs=False):
+                        if st.kind == "assign" and st.path.startswith("self.") and st.path.count(".") == 1 \
+                                and isinstance(st.value, ast.Name) and st.value.id == e.args[0].id:
+                            int_attrs.add(st.path)
+        # ... and are None otherwise
+        int_attrs = {a for a in int_attrs if any(st.path == a and isinstance(st.value, ast.Constant) and st.value.value is None
+                                                 for st in stores(init.node, into_defs=False))}
+        for attr in sorted(int_attrs):
+            for m in ci.methods.values():
+                if m.name == "__init__":
+                    continue
+                tests = [x.test for x in walk(m.node, into_defs=True) if isinstance(x, (ast.If, ast.IfExp, ast.While, ast.Assert))]
+                tests += [c for x in walk(m.node, into_defs=True) if isinstance(x, ast.comprehension) for c in x.ifs]
+                hits = [t_ for t_ in tests if _truth_tested(t_, attr)]
+                if not tests:
+                    continue
+                n += 1
+                ctx.ob("C08.R21", f"{_label(ci)}.{m.name}: {attr} (None or an int count) is never tested for truth", not hits,
+                       ctx.w(m, hits[0]) if hits else m.where,
+                       "; ".join(sorted({norm(h) for h in hits})) + f": a count of 0 is taken for 'not given' "
+                       f"({ci.name}(0, ..) is written and read as another mode)")
+    ctx.floor("C08.R21", "methods testing an optional int count", n, 2)
+
+
+def r22(ctx):
+    repo = ctx.repo
+    ctx.rule("C08.R22", "the parent link of a parse context is optional and only dereferenced under a None test: the "
+                        "outermost context has no parent, and walking up (ctx._root) must work from there too")
+    pc = repo.cls("ParseContext", SER)
+    init = repo.lookup_method(pc, "__init__")
+    ctx.require(init is not None, "C08.R22: ParseContext.__init__ vanished")
+    # the link attribute: assigned `<something> if parent is not None else None`
+    links = {st.path for st in stores(init.node, into_defs=False) if st.path.startswith("self.") and st.value is not None
+             and any(isinstance(x, ast.Constant) and x.value is None for x in ast.walk(st.value))
+             and isinstance(st.value, ast.IfExp)}
+    # (the normal form turns a statement-level conditional expression into if/else)
+    for st in stores(init.node, into_defs=False):
+        if st.path.startswith("self.") and isinstance(st.value, ast.Constant) and st.value.value is None:
+            links.add(st.path)
+    ctx.require(len(links) == 1, f"C08.R22: ParseContext parent link not identified ({sorted(links)})")
+    link = next(iter(links)).split(".", 1)[1]
+    n = 0
+    for m in pc.methods.values():
+        if m.name == "__init__":
+            continue
+        derefs = [x for x in walk(m.node) if isinstance(x, ast.Attribute) and x.attr == link and isinstance(x.ctx, ast.Load)]
+        if not derefs:
+            continue
+        n += 1
+        assigns = [st for st in stores(m.node, into_defs=False) if st.kind == "assign" and st.value is not None
+                   and "." not in st.path and "[" not in st.path]
+
+        def maybe_none_sources(name, seen=()):
+            """assignments through which `name` may receive a (possibly None) link value"""
+            out = []
+            for st in assigns:
+                if st.path != name or st in seen:
+                    continue
+                if isinstance(st.value, ast.Attribute) and st.value.attr == link:
+                    out.append(st)
+                elif isinstance(st.value, ast.Name) and st.value.id not in ("self", "cls"):
+                    out.extend(st2 for st2 in maybe_none_sources(st.value.id, seen + (st,)) and [st] or [])
+            return out
+        unguarded = []
+        for a in derefs:
+            base = a.value
+            if not isinstance(base, ast.Name) or base.id in ("self", "cls"):
+                continue
+            for st in maybe_none_sources(base.id):
+                names = {base.id, ap(st.value) or ""}
+                ok = any(is_none_test(e) and is_none_test(e)[0] in names and is_none_test(e)[1] != pol
+                         for e, pol in facts(st.node, m.node)) or \
+                    any(is_none_test(e) and is_none_test(e)[0] in names and is_none_test(e)[1] != pol
+                        for e, pol in facts(a, m.node))
+                if not ok:
+                    unguarded.append(norm(st.node))
+        ctx.ob("C08.R22", f"ParseContext.{m.name}: the parent link is dereferenced only through values known not to be None",
+               not unguarded, m.where, "; ".join(sorted(set(unguarded))) + ": None for the outermost context, the dereference "
+               "raises (and __getattr__ then looks the name up on the wrapped value)")
+    ctx.floor("C08.R22", "methods walking the parent link", n, 1)
+
+
+def r23(ctx):
+    repo = ctx.repo
+    ctx.rule("C08.R23", "adapters of bitfield members see the same thing in both modes: with shift=False helpers.BitField "
+                        "hands out / expects values still in their bit position, so serialization.BitField must normalise "
+                        "them around the member adapters (or refuse adapters there) - otherwise decode and encode of an "
+                        "adapted member are not inverse")
+    bf = repo.cls("BitField", SER)
+    enc, dec = repo.lookup_method(bf, "encode"), repo.lookup_method(bf, "decode")
+    ctx.require(enc is not None and dec is not None, "C08.R23: serialization.BitField.encode/decode vanished")
+    aware = []
+    for m in (enc, dec):
+        aware.append(any(isinstance(x, ast.Attribute) and x.attr in ("shift", "_shift") for x in walk(m.node, into_defs=True)))
+    ctx.ob("C08.R23", "serialization.BitField: member adapters get position-independent values when shift=False",
+           all(aware), enc.where,
+           "decode hands the adapter the value still shifted (8 for bit 3), encode hands the adapter's result unshifted "
+           "(True == 1) to pack, which refuses it: BitField(U8, {'Kind': 3, 'Enabled': BitfieldEntry(1, BoolAdapter()), "
+           "'Rest': 4}, shift=False) reads 08 as Enabled=True and cannot write Enabled=True")
+
+
 def run(ctx):
     r1(ctx)
     r2(ctx)
     r2_truncation(ctx)
+    r2_casts(ctx)
     r3(ctx)
     r4(ctx)
     r5(ctx)
@@ -1800,6 +1997,9 @@ def run(ctx):
     r18(ctx)
     r19(ctx)
     r20(ctx)
+    r21(ctx)
+    r22(ctx)
+    r23(ctx)
     ctx.assume("read(write(v)) == v over generated spec trees and values is not decided statically; branch "
                "conditions of the two directions are not compared (a flipped test is a value-level fault)")
     ctx.assume("comprehension / generator events are placed where the comprehension is written; closures returned "
